@@ -69,3 +69,27 @@ Proof. exact R6ex.C07_nonvacuous. Qed.
 Theorem C07_next_then_all_is_all : forall x p ps, R2.read_all x = Some (p :: ps) ->
   exists rest, R2.next R2.empty_para [] (lines_of x) = R2.RPara p rest /\ R2.all_fuel (List.length (lines_of x)) rest = Some ps.
 Proof. exact HIST.C07_next_then_all. Qed.
+
+(* a field name does not begin with '-' (Policy 5.1; repair 1b827a1; a line beginning with '#' is a comment - a name such as "-----BEGIN PGP X", read
+   behind a comment, would be written back as a line the reader takes for an OpenPGP armor): such a line is an error, wherever
+   it stands and whatever paragraph is being read *)
+Theorem C07_field_name_starts_with_dash : forall p last k v rest, free colon k ->
+  next p last ((dashc :: k ++ colon :: v) :: rest) = RErr.
+Proof.
+  intros p last k v rest Fk.
+  assert (C : cut_colon [] (dashc :: k ++ colon :: v) = Some (dashc :: k, v)).
+  { change (dashc :: k ++ colon :: v) with ((dashc :: k) ++ colon :: v). apply (cut_colon_word (dashc :: k) [] v).
+    constructor; [discriminate|exact Fk]. }
+  cbn [next]. change (is_blank_line (dashc :: k ++ colon :: v)) with (str_eqb (dashc :: k ++ colon :: v) [cr] || false) .
+  unfold is_blank_line. destruct (str_eqb_spec (dashc :: k ++ colon :: v) []); [discriminate|].
+  destruct (str_eqb_spec (dashc :: k ++ colon :: v) [cr]) as [E|_]; [discriminate E|]. cbn [orb].
+  change (starts hash (dashc :: k ++ colon :: v)) with false. change (starts sp (dashc :: k ++ colon :: v)) with false.
+  change (starts tab (dashc :: k ++ colon :: v)) with false. cbn [orb]. rewrite C.
+  assert (T : exists t, trim_space (dashc :: k) = dashc :: t).
+  { unfold trim_space. cbn [trim_left]. change (is_space dashc) with false. cbv iota.
+    unfold trim_right. cbn [rev]. 
+    assert (G : forall y, exists z, trim_left (y ++ [dashc]) = z ++ [dashc]).
+    { induction y as [|b y IHy]; cbn [app trim_left]; [now exists []|]. destruct (is_space b); [exact IHy|]. now exists (b :: y). }
+    destruct (G (rev k)) as (z&Ez). rewrite Ez, rev_app_distr. cbn. now exists (rev z). }
+  destruct T as (t&Et). rewrite Et. cbn [starts]. change (ceq dashc hash) with false. change (ceq dashc dashc) with true. reflexivity.
+Qed.
